@@ -640,7 +640,7 @@ type Conc struct {
 }
 
 var subConc = ev.Register("session-concurrency",
-	"2-12 clients use one session cookie at the same moment while its expiry lies inside the sliding-extension zone (so every request may extend it), with concurrent logins and logouts of other sessions; oracle: a live cookie is never refused and nothing panics; this is mainly a workload for the race detector (C15); non-trivial = always; distinct by case",
+	"2-12 clients use one session cookie at the same moment while its expiry lies inside the sliding-extension zone (so every request may extend it), with concurrent logins and logouts of other sessions and passes of the session garbage collector (hook H6); oracle: a live cookie is never refused and nothing panics; this is mainly a workload for the race detector (C15); non-trivial = always; distinct by case",
 	func(c Conc, o *ev.Obs) *ev.Failure {
 		st, sid := login("bob", goodPassword+"bob")
 		if st != 200 {
@@ -666,6 +666,18 @@ var subConc = ev.Register("session-concurrency",
 						errs <- ev.Failf("auth.live-session-refused:concurrent", "a live session used by %d clients at once was answered %d", c.Clients, code)
 						return
 					}
+				}
+			}()
+		}
+		if c.Logins > 0 {
+			// the session garbage collector's pass (hook H6: its ticker fires every 15 minutes) while sessions
+			// come and go
+			wg.Add(1)
+			go func() {
+				defer wg.Done()
+				for k := 0; k < 20; k++ {
+					auth.VerifRunSessionGC()
+					time.Sleep(200 * time.Microsecond)
 				}
 			}()
 		}
